@@ -151,3 +151,38 @@ func c06AllSels(c *Ctx, r *Report, a *Anchors, rule string) {
 	}
 	r.floor(rule, "dispatching loops in the selection walker", n, 1)
 }
+
+// c06PerMember: "a resolver returning a group of errors yields one entry per member": where the response's
+// error list is formed, the per-error formatter is applied to every member of the group: inside the loop over
+// the group the call is control dependent on nothing but the loop's own test (no de-duplication by text).
+func c06PerMember(c *Ctx, r *Report) {
+	r.rule("C06.PERMEMBER", "FormErrorsResult: the per-error formatter is called for every member of an error group (only the range test guards it inside the loop)")
+	fn := c.fn("FormErrorsResult")
+	one := c.fn("formOneErrorResult")
+	if fn == nil || one == nil {
+		r.undecided("C06.PERMEMBER", "anchors FormErrorsResult / formOneErrorResult", 0, "not found")
+		return
+	}
+	r.fnSeen(fnName(fn))
+	loops := loopsOf(fn)
+	n := 0
+	for _, ci := range callsIn(fn) {
+		if ci.Common().StaticCallee() != one {
+			continue
+		}
+		l := innermostLoop(loops, ci.Block())
+		if l == nil {
+			continue
+		}
+		n++
+		filter := ""
+		for _, d := range loopControlDeps(l, ci.Block()) {
+			if !isRangeCond(d.ifi.Cond) {
+				filter = shortPath(vpath(d.ifi.Cond))
+			}
+		}
+		r.check("C06.PERMEMBER", fmt.Sprintf("%s: group loop %d reports every member", fnName(fn), n), ci.Pos(), filter == "",
+			"a member of the group is left out depending on "+filter+": members with the same message (and the extensions only they carry) collapse into one entry")
+	}
+	r.floor("C06.PERMEMBER", "loops over an error group in the response former", n, 1)
+}
